@@ -58,6 +58,9 @@ def output_text_report(tex, plain, charmap, matches, file, out):
         txt = json_get(cont, 'text', str)
         beg = json_get(cont, 'offset', int)
         length = json_get(cont, 'length', int)
+        # the marker line never needs to be longer than the context itself
+        beg = max(0, min(beg, len(txt)))
+        length = max(0, min(length, len(txt) - beg))
         out.write(txt.replace('\t', ' ') + '\n')
         out.write(' ' * beg + '^' * length + '\n')
 
